@@ -399,12 +399,12 @@ def main(tier='quick'):
     for c in life:
         if not c.pop('handler_finished'):
             v.report({'site': 'asceprovider.handle', 'clause': 'handler-never-finished', 'scn': 'life'},
-                     'the accepting handler thread did not finish within 20 s following %s' % c['script'], replay={'life': {'script': c['script'], 'values': c['values'], 'ordered': c['ordered']}})
+                     'the accepting handler thread did not finish within 20 s following %s' % c['script'], replay={'life': {'script': c['script'], 'values': c['values'], 'ordered': c['ordered'], 'in_handler': c.get('in_handler', False)}})
     lres, lstats = lifedrive.validate(life)
     for c, r in zip(life, lres):
         if not r[0]:
             key, txt = lifedrive.explain(c, r)
-            v.report(key, txt, replay={'life': {'script': c['script'], 'values': c['values'], 'ordered': c['ordered']}})
+            v.report(key, txt, replay={'life': {'script': c['script'], 'values': c['values'], 'ordered': c['ordered'], 'in_handler': c.get('in_handler', False)}})
     ev = {'tier': tier, 'level': 'model_checking',
           'coverage': {'evaluations': len(cases), 'distinct_nontrivial': len({(c['scn'], str(c['given']), c['placement']) for c in cases}),
                        'rule': 'one real two-sided association (application, handler and provider threads over a socketpair) per scenario; '
@@ -426,7 +426,7 @@ def replay(doc):
     if 'life' in r:
         from . import lifedrive
         j = r['life']
-        kw = {'triple': tuple(j['values']['triple']), 'rq_reason': j['values']['rq_reason'], 'ac_reason': j['values']['ac_reason'], 'ordered': j['ordered']}
+        kw = {'triple': tuple(j['values']['triple']), 'rq_reason': j['values']['rq_reason'], 'ac_reason': j['values']['ac_reason'], 'ordered': j['ordered'], 'in_handler': j.get('in_handler', False)}
         bad = 0
         for _ in range(3):
             c = lifedrive.run_script(j['script'], **kw)
